@@ -230,6 +230,27 @@ class _Expr(ast.NodeTransformer):
             self.changed = True
             return ast.copy_location(ci, n)
         if len(n.ops) == 1 and isinstance(n.ops[0], (ast.In, ast.NotIn)) and _simple_key(n.left):
+            # x in (a, b)  ->  x == a or x == b     (a literal tuple / list / set of plain operands, also through a local bound once)
+            cont = n.comparators[0]
+            if isinstance(cont, ast.Name) and self.t._is_local(cont.id):
+                binds = [x for x in ast.walk(self.t.f.node) if isinstance(x, ast.Name) and x.id == cont.id and isinstance(x.ctx, ast.Store)]
+                asg = [x for x in ast.walk(self.t.f.node) if isinstance(x, ast.Assign) and len(x.targets) == 1 and isinstance(x.targets[0], ast.Name)
+                       and x.targets[0].id == cont.id]
+                if len(binds) == 1 and len(asg) == 1 and isinstance(asg[0].value, (ast.Tuple, ast.List, ast.Set)):
+                    elts_names = {y.id for e_ in asg[0].value.elts for y in ast.walk(e_) if isinstance(y, ast.Name)}
+                    restored = [x for x in ast.walk(self.t.f.node) if isinstance(x, ast.Name) and x.id in elts_names and isinstance(x.ctx, ast.Store)]
+                    # the operands must not be rebound after the tuple was built (single assignment of each is enough here)
+                    if all(sum(1 for x in restored if x.id == nm) <= 1 for nm in elts_names):
+                        cont = asg[0].value
+            if isinstance(cont, (ast.Tuple, ast.List, ast.Set)) and 1 <= len(cont.elts) <= 6 \
+                    and all(_simple_key(x) and not isinstance(x, ast.Starred) for x in cont.elts) \
+                    and not all(isinstance(x, ast.Constant) for x in cont.elts):
+                self.changed = True
+                tests = [ast.Compare(left=copy.deepcopy(n.left), ops=[ast.Eq()], comparators=[copy.deepcopy(x)]) for x in cont.elts]
+                e2: ast.AST = tests[0] if len(tests) == 1 else ast.BoolOp(op=ast.Or(), values=tests)
+                if isinstance(n.ops[0], ast.NotIn):
+                    e2 = ast.UnaryOp(op=ast.Not(), operand=e2)
+                return ast.copy_location(e2, n)
             rows = self.t.rows(n.comparators[0], allow_dynamic_values=True)
             # only a table that the function also *indexes* is a dispatch table; a list used as a set of names is left alone
             tdump = ast.dump(n.comparators[0])
